@@ -351,7 +351,12 @@ def main(chk: core.Check) -> int:
     chk.assumptions += ["uproot's own entry-range -> basket-selection code, decompression and ak.concatenate are outside the model (exercised through the public API on one-basket fixtures)",
                         "AsCustom.final_array (uproot-custom 2.2) is third-party code modelled from its source"]
     # C01Cgem: round trip of the CGEM cluster reader incl. the recorded finding as a theorem pair (cgem_keys_layout_independent_partial / cgem_keys_layout_dependent_witness)
-    chk.prove(modules=["C02", "C01Cgem"])
+    from translate import gen
+    g = gen.gen_finalpy()
+    if not g["ok"]:
+        chk.obligation_broken("translator", "translate AsCustom.final_array (installed uproot-custom) into Gen/FinalPy.lean", g["error"])
+    core.regen_rootpy(chk)          # Bes3Interpretation.final_array = post-processing of super().final_array (checked by the root_io.py translator)
+    chk.prove(modules=["C02", "C01Cgem", "FinalTie", "RootTie"])
     try:
         diffs = model_vs_real(chk, 4000 if thorough else 500)
         chk.coverage["traces_validated_against_impl"] = chk.evals
